@@ -1,6 +1,6 @@
 (* C14 -- theorems (each followed by Print Assumptions).  PARTIAL: see Statement.v / notes/C14.md. *)
 From Coq Require Import ZArith List String Bool.
-From C14 Require Import Model Proofs ProofsStmt ProofsClamp Statement.
+From C14 Require Import Model Proofs ProofsStmt ProofsFuel ProofsAgree ProofsShape ProofsClamp Statement.
 From Gen Require Import Clamp.
 Import ListNotations.
 Open Scope Z_scope.
@@ -26,49 +26,77 @@ Theorem report_clamp_printed_end_not_before_start : forall line column end_line 
 Proof. exact clamp_printed_end_not_before_start. Qed.
 Print Assumptions report_clamp_printed_end_not_before_start.
 
-(* (b) the two converters agree, positions included, on every well-formed tree of the fragment (unbounded size) *)
-Theorem parsers_agree_on_fragment : forall t : stmts, wf_ss t -> read_native (emit t) = Some (convert t).
+(* (b1) the native reader on the serializer's stream, for EVERY tree of the fragment (no side condition, unbounded size):
+   what it yields is the function nconvert of the tree -- positions by the reader's own rules *)
+Theorem native_reader_correct : forall t : stmts, read_native (emit t) = Some (nconvert t).
 Proof. exact read_native_emit. Qed.
+Print Assumptions native_reader_correct.
+
+(* (b2) on the well-formed trees this IS the fastparse result, positions included *)
+Theorem native_equals_fastparse_on_wf : forall t : stmts, wf_ss t -> nconvert t = convert t.
+Proof. exact nconvert_eq_convert. Qed.
+Print Assumptions native_equals_fastparse_on_wf.
+
+Theorem parsers_agree_on_fragment : forall t : stmts, wf_ss t -> read_native (emit t) = Some (convert t).
+Proof. intros t Hw. rewrite read_native_emit, (nconvert_eq_convert t Hw). reflexivity. Qed.
 Print Assumptions parsers_agree_on_fragment.
 
-(* the hypotheses are satisfiable: `x = f(a, *b, k=1, **d).y ; while x < 1 <= y: pass  else: return not x` *)
+(* (b3) for EVERY tree of the fragment -- parenthesised operands, n-ary and/or, elif chains, *args/**kwargs, lambda,
+   del a, b, except .. as name, annotated assignments included -- the two converters yield the same tree up to positions;
+   the only side condition: no keyword-only / star parameter is called `__x` (ok_ss; there the pos_only flag differs) *)
+Theorem parsers_agree_up_to_positions : forall t : stmts, ok_ss t ->
+  exists l, read_native (emit t) = Some l /\ map er_s l = map er_s (convert t).
+Proof. intros t H. exists (nconvert t). split; [apply read_native_emit | apply same_shape; exact H]. Qed.
+Print Assumptions parsers_agree_up_to_positions.
+
+(* the hypotheses are satisfiable:
+   @d
+   def f(a, b=1):
+       x += 1
+       with g(a) as h:
+           del h[0]
+       try:
+           import m.n as o
+       except (E, F):
+           raise G from None_
+       finally:
+           assert a, {b: [*c], **d}[1:2]                                                                         *)
 Definition example_tree : stmts :=
-  (SCons (SAssign (P 1 0 1 24) (ECons (EName (P 1 0 1 1) "x") ENil) (EAttr (P 1 4 1 24) (ECall (P 1 4 1 22) (EName (P 1 4 1 5) "f")
-    (ACons APos (EName (P 1 6 1 7) "a") (ACons AStar (EName (P 1 10 1 11) "b") (ACons (ANamed "k") (EInt (P 1 15 1 16) 1)
-    (ACons ADStar (EName (P 1 20 1 21) "d") ANil))))) "y"))
-  (SCons (SWhile (P 2 0 5 16) (ECompare (P 2 6 2 16) (EName (P 2 6 2 7) "x") (CCons Lt (EInt (P 2 10 2 11) 1) (CCons LtE (EName (P 2 15 2 16) "y") CNil)))
-    (SPass (P 3 4 3 8)) SNil (SCons (SReturn (P 5 4 5 16) (Some (EUnary (P 5 11 5 16) Not (EName (P 5 15 5 16) "x")))) SNil)) SNil)).
+  (SCons (SDef (P 2 0 11 37) "f" (PCons (P 2 6 2 7) (P 2 6 2 7) "a" KPos ONone (PCons (P 2 9 2 10) (P 2 9 2 10) "b" KPos (OSome (EInt (P 2 11 2 12) 1)) PNil))
+    (ECons (EName (P 1 1 1 2) "d") ENil) (P 1 1 1 2)
+    (SAugAssign (P 3 4 3 10) Add (EName (P 3 4 3 5) "x") (EInt (P 3 9 3 10) 1))
+    (SCons (SWith (P 4 4 5 16) (WCons (ECall (P 4 9 4 13) (EName (P 4 9 4 10) "g") (ACons APos (EName (P 4 11 4 12) "a") ANil)) (OSome (EName (P 4 17 4 18) "h")) WNil)
+              (SDel (P 5 8 5 16) (ESubscript (P 5 12 5 16) (EName (P 5 12 5 13) "h") (EInt (P 5 14 5 15) 0)) ENil) SNil)
+    (SCons (STry (P 6 4 11 37) (SImport (P 7 8 7 23) [("m.n"%string, Some "o"%string)]) SNil
+              (HCons (P 8 4 9 26) (OSome (ETuple (P 8 11 8 17) (ECons (EName (P 8 12 8 13) "E") (ECons (EName (P 8 15 8 16) "F") ENil)))) None
+                 (SRaise (P 9 8 9 26) (OSome (EName (P 9 14 9 15) "G")) (OSome (EName (P 9 21 9 26) "None_"))) SNil HNil)
+              SNil
+              (SCons (SAssert (P 11 8 11 37) (EName (P 11 15 11 16) "a")
+                 (OSome (ESubscript (P 11 18 11 37)
+                    (EDict (P 11 18 11 32) (DCons (OSome (EName (P 11 19 11 20) "b")) (EList (P 11 22 11 26) (ECons (EStar (P 11 23 11 25) (EName (P 11 24 11 25) "c")) ENil))
+                                            (DCons ONone (EName (P 11 30 11 31) "d") DNil)))
+                    (ESlice (P 11 33 11 36) (OSome (EInt (P 11 33 11 34) 1)) (OSome (EInt (P 11 35 11 36) 2)) ONone)))) SNil)) SNil))) SNil).
 Example example_tree_wf : wf_ss example_tree.
 Proof. cbn. intuition. Qed.
+Example witnesses_ok : ok_ss example_tree.
+Proof. cbn. intuition. Qed.
 Example example_tree_agrees : read_native (emit example_tree) = Some (convert example_tree).
-Proof. vm_compute. reflexivity. Qed.
-(* ... and `def f(a, b=1, /, c=g(2), *, k, j=3): return a` (all parameter kinds except *args / **kwargs) *)
-Definition example_def : stmts :=
-  (SCons (SDef (P 1 0 2 12) "f" (PCons (P 1 6 1 7) (P 1 6 1 7) "a" KPosOnly None (PCons (P 1 9 1 10) (P 1 9 1 10) "b" KPosOnly (Some (EInt (P 1 11 1 12) 1))
-    (PCons (P 1 17 1 18) (P 1 17 1 18) "c" KPos (Some (ECall (P 1 19 1 23) (EName (P 1 19 1 20) "g") (ACons APos (EInt (P 1 21 1 22) 2) ANil)))
-    (PCons (P 1 28 1 29) (P 1 28 1 29) "k" KKwOnly None (PCons (P 1 31 1 32) (P 1 31 1 32) "j" KKwOnly (Some (EInt (P 1 33 1 34) 3)) PNil)))))
-    (SReturn (P 2 4 2 12) (Some (EName (P 2 11 2 12) "a"))) SNil) SNil).
-Example example_def_wf : wf_ss example_def.
-Proof. cbn. intuition. Qed.
-(* ... and `@dec  class A(B, metaclass=M): pass` *)
-Definition example_class : stmts :=
-  SCons (SClass (P 2 0 3 8) "A" (ECons (EName (P 2 8 2 9) "B") ENil) (KCons "metaclass" (EName (P 2 21 2 22) "M") KNil)
-           (ECons (EName (P 1 1 1 4) "dec") ENil) (SPass (P 3 4 3 8)) SNil) SNil.
-Example example_class_wf : wf_ss example_class.
-Proof. cbn. intuition. Qed.
-Example example_class_value :
-  read_native (emit example_class) =
-    Some [MClassDef (P 2 0 3 8) "A" (MBlock (P 3 4 3 8) false [MPass (P 3 4 3 8)]) [MName (P 2 8 2 9) "B"]
-            (Some (MName (P 2 21 2 22) "M")) [("metaclass"%string, MName (P 2 21 2 22) "M")] [MName (P 1 1 1 4) "dec"]].
 Proof. vm_compute. reflexivity. Qed.
 Example clamp_example : report_clamp 3 (Some 7) None None = (3, 7, 3, 8) /\ report_clamp 3 None (Some 1) (Some 0) = (3, -1, 3, 0).
 Proof. split; reflexivity. Qed.
 
 (* (b) at full strength (all trees of the fragment type) is REFUTED by the faithful model; each witness is the CPython
    tree of a real program on which the real converters differ in the same way (checked in stage C / S):
-   1. `(a) + b`        OpExpr starts at the parenthesis (fastparse) / at the operand (nativeparse: no location in the stream)
+   1. `(a) + b`              OpExpr starts at the parenthesis (fastparse) / at the operand (nativeparse: no location in the stream)
    2. `if a: b  elif c: d`   nested IfStmt/Block start at `elif` (fastparse) / at the elif expression (nativeparse)
-   3. `a and b and c`  the inner OpExpr spans the whole BoolOp (fastparse group) / from b to c (nativeparse)            *)
+   3. `a and b and c`        the inner OpExpr spans the whole BoolOp (fastparse group) / from b to c (nativeparse)
+   4. `def f( *a ): pass`    the Argument/Var of the star parameter start at the name (fastparse) / at the star (nativeparse)
+   5. `def f( *, __x ): pass`  fastparse makes the keyword-only parameter `__x` positional-only; the serializer does not.
+                             Observable: `f(__x=1)` is "Unexpected keyword argument" under the default parser only.
+   6. `x = lambda a: a`      LambdaExpr, its Block and its ReturnStmt have no end position under fastparse
+   7. `del a, b`             the synthetic TupleExpr has line only (column -1, no end) under fastparse
+   8. `except E as e`        the NameExpr e is placed at the handler (fastparse) / at the name (nativeparse)
+   9. `@(d) def f`           the Decorator starts at d (fastparse) / at the parenthesis (nativeparse)                     *)
 Definition witness_paren : stmts :=
   SCons (SExpr (P 1 0 1 7) (EBin (P 1 0 1 7) Add (EName (P 1 1 1 2) "a") (EName (P 1 6 1 7) "b"))) SNil.
 Definition witness_elif : stmts :=
@@ -77,19 +105,66 @@ Definition witness_elif : stmts :=
 Definition witness_bool3 : stmts :=
   SCons (SExpr (P 1 0 1 13) (EBoolOp (P 1 0 1 13) And (EName (P 1 0 1 1) "a") (EName (P 1 6 1 7) "b")
     (ECons (EName (P 1 12 1 13) "c") ENil))) SNil.
-
-(* 4. `def f( *a ): pass`      the Argument/Var of the star parameter start at the name (fastparse: ast.arg) / at the star (nativeparse)
-   5. `def f( *, __x ): pass`   fastparse makes the keyword-only parameter `__x` positional-only (argument_elide_name on
-                              every parameter); the serializer applies the rule to ordinary positional parameters only.
-                              Observable: `f(__x=1)` is "Unexpected keyword argument" under the default parser only. *)
 Definition witness_star_param : stmts :=
-  SCons (SDef (P 1 0 2 8) "f" (PCons (P 1 7 1 8) (P 1 6 1 8) "a" KStar None PNil) (SPass (P 2 4 2 8)) SNil) SNil.
+  SCons (SDef (P 1 0 2 8) "f" (PCons (P 1 7 1 8) (P 1 6 1 8) "a" KStar ONone PNil) ENil (P 1 0 2 8) (SPass (P 2 4 2 8)) SNil) SNil.
 Definition witness_kwonly_dunder : stmts :=
-  SCons (SDef (P 1 0 2 8) "f" (PCons (P 1 9 1 12) (P 1 9 1 12) "__x" KKwOnly None PNil) (SPass (P 2 4 2 8)) SNil) SNil.
+  SCons (SDef (P 1 0 2 8) "f" (PCons (P 1 9 1 12) (P 1 9 1 12) "__x" KKwOnly ONone PNil) ENil (P 1 0 2 8) (SPass (P 2 4 2 8)) SNil) SNil.
+Definition witness_lambda : stmts :=
+  SCons (SAssign (P 1 0 1 15) (ECons (EName (P 1 0 1 1) "x") ENil)
+    (ELambda (P 1 4 1 15) (PCons (P 1 11 1 12) (P 1 11 1 12) "a" KPos ONone PNil) (EName (P 1 14 1 15) "a"))) SNil.
+Definition witness_del2 : stmts :=
+  SCons (SDel (P 1 0 1 8) (EName (P 1 4 1 5) "a") (ECons (EName (P 1 7 1 8) "b") ENil)) SNil.
+Definition witness_except_as : stmts :=
+  SCons (STry (P 1 0 4 5) (SExpr (P 2 4 2 5) (EName (P 2 4 2 5) "a")) SNil
+    (HCons (P 3 0 4 5) (OSome (EName (P 3 7 3 8) "E")) (Some ("e"%string, P 3 12 3 13)) (SExpr (P 4 4 4 5) (EName (P 4 4 4 5) "b")) SNil HNil) SNil SNil) SNil.
+Definition witness_paren_decorator : stmts :=
+  SCons (SDef (P 2 0 3 8) "f" PNil (ECons (EName (P 1 2 1 3) "d") ENil) (P 1 1 1 3) (SPass (P 3 4 3 8)) SNil) SNil.
 
+(* 10. `x: t[A | B, None]`  declared types: fastparse gives every node the statement's line, no end (except subscripts)
+                             and no column to None; nativeparse gives the real extent *)
+Definition witness_annotation : stmts :=
+  SCons (SAnnAssign (P 1 0 1 17) (EName (P 1 0 1 1) "x")
+    (TySub (P 1 3 1 17) "t" true (TCons (TyUnion (P 1 5 1 10) (TyName (P 1 5 1 6) "A") (TyName (P 1 9 1 10) "B")) (TCons (TyNone (P 1 12 1 16)) TNil))) ONone) SNil.
+
+Ltac refute w := exists w; vm_compute; discriminate.
+Theorem parsers_agree_all_trees_refuted_annotation : exists t, read_native (emit t) <> Some (convert t).
+Proof. refute witness_annotation. Qed.
+Print Assumptions parsers_agree_all_trees_refuted_annotation.
+Example witness_annotation_values :
+  read_native (emit witness_annotation) =
+    Some [MAnnAssign (P 1 0 1 17) [MName (P 1 0 1 1) "x"] (MTemp (P 1 0 1 17))
+            (MUnbound (P 1 3 1 17) "t" [MUnion (P 1 5 1 10) [MUnbound (P 1 5 1 6) "A" [] false; MUnbound (P 1 9 1 10) "B" [] false];
+                                        MUnbound (P 1 12 1 16) "None" [] false] false) true]
+  /\ convert witness_annotation =
+    [MAnnAssign (P 1 0 1 17) [MName (P 1 0 1 1) "x"] (MTemp (P 1 0 1 17))
+            (MUnbound (P 1 3 1 17) "t" [MUnion (PN 1 5) [MUnbound (PN 1 5) "A" [] false; MUnbound (PN 1 9) "B" [] false];
+                                        MUnbound (PN 1 (-1)) "None" [] false] false) true].
+Proof. split; vm_compute; reflexivity. Qed.
+Theorem parsers_agree_all_trees_refuted_paren : exists t, read_native (emit t) <> Some (convert t).
+Proof. refute witness_paren. Qed.
+Print Assumptions parsers_agree_all_trees_refuted_paren.
+Theorem parsers_agree_all_trees_refuted_elif : exists t, read_native (emit t) <> Some (convert t).
+Proof. refute witness_elif. Qed.
+Print Assumptions parsers_agree_all_trees_refuted_elif.
+Theorem parsers_agree_all_trees_refuted_bool3 : exists t, read_native (emit t) <> Some (convert t).
+Proof. refute witness_bool3. Qed.
+Print Assumptions parsers_agree_all_trees_refuted_bool3.
 Theorem parsers_agree_all_trees_refuted_star_param : exists t, read_native (emit t) <> Some (convert t).
-Proof. exists witness_star_param. vm_compute. discriminate. Qed.
+Proof. refute witness_star_param. Qed.
 Print Assumptions parsers_agree_all_trees_refuted_star_param.
+Theorem parsers_agree_all_trees_refuted_lambda : exists t, read_native (emit t) <> Some (convert t).
+Proof. refute witness_lambda. Qed.
+Print Assumptions parsers_agree_all_trees_refuted_lambda.
+Theorem parsers_agree_all_trees_refuted_del2 : exists t, read_native (emit t) <> Some (convert t).
+Proof. refute witness_del2. Qed.
+Print Assumptions parsers_agree_all_trees_refuted_del2.
+Theorem parsers_agree_all_trees_refuted_except_as : exists t, read_native (emit t) <> Some (convert t).
+Proof. refute witness_except_as. Qed.
+Print Assumptions parsers_agree_all_trees_refuted_except_as.
+Theorem parsers_agree_all_trees_refuted_paren_decorator : exists t, read_native (emit t) <> Some (convert t).
+Proof. refute witness_paren_decorator. Qed.
+Print Assumptions parsers_agree_all_trees_refuted_paren_decorator.
+
 Theorem parsers_disagree_kwonly_dunder_pos_only :
   read_native (emit witness_kwonly_dunder) =
     Some [MFuncDef (P 1 0 2 8) "f" [MArg (P 1 9 1 12) (P 1 9 1 12) "__x" ARG_NAMED None false] (MBlock (P 2 4 2 8) false [MPass (P 2 4 2 8)])]
@@ -98,17 +173,7 @@ Theorem parsers_disagree_kwonly_dunder_pos_only :
 Proof. split; vm_compute; reflexivity. Qed.
 Print Assumptions parsers_disagree_kwonly_dunder_pos_only.
 
-Theorem parsers_agree_all_trees_refuted_paren : exists t, read_native (emit t) <> Some (convert t).
-Proof. exists witness_paren. vm_compute. discriminate. Qed.
-Print Assumptions parsers_agree_all_trees_refuted_paren.
-Theorem parsers_agree_all_trees_refuted_elif : exists t, read_native (emit t) <> Some (convert t).
-Proof. exists witness_elif. vm_compute. discriminate. Qed.
-Print Assumptions parsers_agree_all_trees_refuted_elif.
-Theorem parsers_agree_all_trees_refuted_bool3 : exists t, read_native (emit t) <> Some (convert t).
-Proof. exists witness_bool3. vm_compute. discriminate. Qed.
-Print Assumptions parsers_agree_all_trees_refuted_bool3.
-
-(* ... and in each of the three cases the reader still succeeds and differs ONLY in start positions *)
+(* in the elif case the reader still succeeds and differs ONLY in the start column of the nested IfStmt / Block *)
 Example witness_elif_values :
   read_native (emit witness_elif) =
     Some [MIf (P 1 0 4 5) (MName (P 1 3 1 4) "a") (MBlock (P 2 4 2 5) false [MExprStmt (P 2 4 2 5) (MName (P 2 4 2 5) "b")])
